@@ -1050,6 +1050,23 @@ def gen_dag(rng, ntasks, p_hard=0.3, p_soft=0.15):
     return case
 
 
+def gen_dag_over(rng, names, p_hard=0.3, p_soft=0.15):
+    '''A random DAG over the given task names (any subset of the tasks of an
+    earlier graph, in any order).'''
+    names = list(names)
+    rng.shuffle(names)
+    sub = gen_dag(rng, len(names), p_hard=p_hard, p_soft=p_soft)
+    ren = {f't{i}': name for i, name in enumerate(names)}
+    out = {'tasks': [ren[n] for n in sub['tasks']],
+           'hard': {ren[n]: [ren[d] for d in deps]
+                    for n, deps in sub['hard'].items()},
+           'soft': {ren[n]: [ren[d] for d in deps]
+                    for n, deps in sub['soft'].items()}}
+    if sub.get('falsy'):
+        out['falsy'] = [ren[n] for n in sub['falsy']]
+    return out
+
+
 def gen_wide(rng, workers, per_worker=101):
     '''Many tasks that are ready at the same time (more than `per_worker`
     per worker), a few of them with a common dependent.'''
